@@ -39,6 +39,10 @@ def render(c):
         order = ORDER[c['order']]
         if c['tgt'] in ('count', 'groupcount'):
             order = ' order by t1.a' if (c['tgt'] == 'groupcount' and c['order'] != 'none') else ''
+        if c['tgt'] == 'distinct-cols' and c['order'] == 't1a,t2c':
+            # DISTINCT over (t1.b, t2.c) ordered by a column that is not selected has no defined result (which of the equal rows
+            # carries the sort key?): order by the selected columns instead
+            order = ' order by t1.b, t2.c'
         return 'select %s from int1.t1 %s int2.t2 on t1.a = t2.a%s%s%s%s' % (tg, KIND[c['kind']], where(c['where']), grp,
                                                                            order, lim(c['lim']))
     if sh == 'join3':
